@@ -93,13 +93,12 @@ theorem op_list_case (c : Ctx) (root : Val) (env : Env) (hr : EnvRel c root env)
           · by_cases hifn : k = "$ifNull"
             · subst hifn
               simp at hre hres
-              obtain ⟨vs, hv1, hv2⟩ := list_agree c root env hr xs hsub hre.2
+              obtain ⟨vs, hv1, hv2⟩ := list_agree c root env hr xs hsub hre
               have hlen : ¬ xs.length < 2 := by
                 intro hl
-                have := hre.1
-                omega
+                simp [hl] at hres
               simp only [hlen, if_false] at hres
-              rw [ifNull_list, ifNull_agree c root env xs vs hv1 hv2 (by
+              rw [ifNull_list c xs (by omega), ifNull_agree c root env xs vs hv1 hv2 (by
                 intro e; subst e; simp at hlen), hres]
             · exfalso
               simp [hand, hor, hcond, hifn] at hre
